@@ -261,6 +261,12 @@ def seq_iter(items):
 def it_next(m, itv, back=False):
     """Advance iterator value `itv` (Adt Iter or crate iterator). Returns (new_itv, item|None)."""
     itv = m.ctx.resolve(itv)
+    if isinstance(itv, Ref):
+        # `&mut I` used as an iterator: advance the referenced iterator in place
+        cur = innermost_ref(m, itv)
+        ni, x = it_next(m, load(cur, m.ctx.resolve), back)
+        store(cur, ni, m.ctx.resolve)
+        return itv, x
     if isinstance(itv, Adt) and itv.ty == 'Box':
         ni, x = it_next(m, itv.fields[0], back)
         return Adt('Box', 0, (ni,), itv.tag), x
